@@ -10,6 +10,7 @@ theorem stage1_rows : stageRows Facts.C10.clientProgram 1 =
     [("ne", "res.Nonce", ["nonce"], "ResPQ nonce mismatch"),
      ("cond", "selectedPubKey.Zero()", [], "ErrKeyFingerprintNotFound"),
      ("cond", "pq.Cmp(pqMax) > 0", [], "server provided bad pq"),
+     ("cond", "pq.Cmp(big.NewInt(1)) <= 0 || pq.ProbablyPrime(0)", [], "server provided bad pq: not composite"),
      ("callerr", "crypto.DecomposePQ", ["pq", "c.rand"], "decompose pq"),
      ("callerr", "crypto.RandInt256", ["c.rand"], "generate new nonce"),
      ("callerr", "pqInnerData.Encode", ["b"], "err"),
@@ -90,15 +91,17 @@ theorem onResPQ_interp {Ct} (P : XP Ct) (cfg : CCfg) (t : CTape) (m : Msg Ct) :
     | some fp =>
       by_cases hpq : pq > pqMax
       · simp [run1, row1, env1, errOf, hsel, hpq]
-      · cases hf : P.factor pq with
-        | none => simp [run1, row1, env1, errOf, hsel, hpq, hf]
-        | some pqf =>
-          obtain ⟨p, q⟩ := pqf
-          cases htemp : cfg.temp
-          · simp [run1, row1, env1, errOf, hsel, hpq, hf, buildPQInner, htemp, l1, l2, l3, l4, l5, l6,
-              i1, i2, i3, i4, i5, i6, i7, natOf, bytesOf, intOf]
-          · simp [run1, row1, env1, errOf, hsel, hpq, hf, buildPQInner, htemp, lit_expires, l1, l2, l3, l4, l5, l6,
-              j1, j2, j3, j4, j5, j6, j7, natOf, bytesOf, intOf]
+      · by_cases hc : pq ≤ 1 ∨ P.isPrime pq = true
+        · simp [run1, row1, env1, errOf, hsel, hpq, hc]
+        · cases hf : P.factor pq with
+          | none => simp [run1, row1, env1, errOf, hsel, hpq, hc, hf]
+          | some pqf =>
+            obtain ⟨p, q⟩ := pqf
+            cases htemp : cfg.temp
+            · simp [run1, row1, env1, errOf, hsel, hpq, hc, hf, buildPQInner, htemp, l1, l2, l3, l4, l5, l6,
+                i1, i2, i3, i4, i5, i6, i7, natOf, bytesOf, intOf]
+            · simp [run1, row1, env1, errOf, hsel, hpq, hc, hf, buildPQInner, htemp, lit_expires, l1, l2, l3, l4, l5, l6,
+                j1, j2, j3, j4, j5, j6, j7, natOf, bytesOf, intOf]
   · simp [run1, row1, env1, errOf, hn]
 
 theorem onDHParams_interp {Ct} (P : XP Ct) (t : CTape) (sn : Bytes) (m : Msg Ct) :
